@@ -119,6 +119,10 @@ func NewTable(b *bytes.Buffer) (t Table, err error) {
 }
 
 func NewTableCustom(defs *[]RouteDef) (t Table, err error) {
+	if defs == nil {
+		// e.g. a poll whose body is the JSON value null
+		return nil, errors.New("route: no route definitions")
+	}
 
 	t = make(Table)
 	for _, d := range *defs {
